@@ -51,10 +51,71 @@ def gen(rng, packed, n):
         yield [rng.choice(pool) for _ in range(rng.randint(0, 5))]
 
 
+def rle_ref(d):
+    out = []
+    for x in d:
+        if out and out[-2] == x:
+            out[-1] += 1
+        else:
+            out += [x, 1]
+    return out
+
+
+def rle_search(case):
+    """guided search for the RunLengthEncoding contracts: compiled encode/decode and the extracted text"""
+    from replayers.common import run_search
+    rng = random.Random(0)
+    datas = []
+    for _ in range(60):
+        n = rng.randint(1, 8)
+        pool = [rng.randint(-3, 3) for _ in range(rng.randint(1, 3))]
+        datas.append([rng.choice(pool) for _ in range(n)])
+    datas += [[5], [5, 5, 5, 5], [1, 2, 3, 4], [0, 0, 1, 1, 0, 0], [2 ** 31 - 1, -2 ** 31, -2 ** 31]]
+    if "_encode" in case:
+        unsigned = "uint8" in case
+        ins = [[abs(x) % 256 for x in d] for d in datas] if unsigned else datas
+        ct = "uint8" if unsigned else "int32"
+
+        def compiled(d):
+            import numpy as np
+            from biotite.structure.io.pdbx.encoding import RunLengthEncoding
+            return {"value": RunLengthEncoding().encode(np.array(d, dtype=ct)).tolist()}
+
+        def oracle(d, out):
+            if out.get("outcome") != "return":
+                return f"raised {out.get('exception')}"
+            return None if out["value"] == rle_ref(d) else f"encoded as {out['value']}, the run-length pairs are {rle_ref(d)}"
+        return run_search(ENC, ENC + "::RunLengthEncoding._encode", ins,
+                          lambda d: [{"obj": "RunLengthEncoding", "attrs": {}}, {"array": d, "ctype": ct}], oracle,
+                          compiled_call=compiled, label="RunLengthEncoding._encode")
+    with_size = "src_size given" in case
+    ins = [rle_ref(d) for d in datas]
+
+    def compiled(p):
+        import numpy as np
+        from biotite.structure.io.pdbx.encoding import RunLengthEncoding
+        e = RunLengthEncoding(src_size=sum(p[1::2]) if with_size else None, src_type=np.int32)
+        return {"value": e.decode(np.array(p, dtype=np.int32)).tolist()}
+
+    def oracle(p, out):
+        if out.get("outcome") != "return":
+            return f"raised {out.get('exception')}"
+        exp = [v for v, r in zip(p[0::2], p[1::2]) for _ in range(r)]
+        return None if out["value"] == exp else f"decoded as {out['value']}, the expanded runs are {exp}"
+    return run_search(ENC, ENC + "::RunLengthEncoding._decode", ins,
+                      lambda p: [{"obj": "RunLengthEncoding", "attrs": {"src_size": sum(p[1::2]) if with_size else None}},
+                                 {"array": p, "ctype": "int32"}, {"array": [], "ctype": "int32"}], oracle,
+                      compiled_call=compiled, label="RunLengthEncoding._decode")
+
+
 def main():
     rec = json.load(open(sys.argv[1]))
     try:
         case = rec["case"]
+        if "RunLengthEncoding" in case:
+            rep, detail = rle_search(case)
+            finish(rep, detail)
+            return
         packed = case.split("packed=")[1].rstrip("]")
         mn, mx = LIMITS[packed]
         rng = random.Random(0)
